@@ -71,7 +71,7 @@ class VUnit:
 
     def fn(self, file, name, impl=None, nth=0, ret=None, requires=(), ensures=(), loops=None, inserts=(),
            rules=(), subst=(), sig_subst=(), external_body=False, canary=True, rename=None, ret_type=None,
-           attrs='', body_override=None, decreases=None, opens_invariants=None, no_unwind=False, returns=None, post=(), opt_inserts=(), resubst=(), d5=None, sig_override=None, append=None):
+           attrs='', body_override=None, decreases=None, opens_invariants=None, no_unwind=False, returns=None, post=(), opt_inserts=(), resubst=(), d5=None, sig_override=None, append=None, prepend=None):
         """extract `fn name` and splice the contract. `rules`: names of rsx.rule_* to apply to the body.
         `subst`: [(literal, replacement, rulename)] literal body substitutions (each must match, logged as a rule).
         `loops`: {ordinal: 'invariant ..., decreases ..'} ; `inserts`: [(anchor, before|after|replace, text)]"""
@@ -117,6 +117,8 @@ class VUnit:
             body = rsx.annotate_loops(body, loops, name)
         for anchor, where, text in inserts:
             body = rsx.insert_at(body, anchor, where, text, name)
+        if prepend:
+            body = '{\n' + prepend + '\n' + body.lstrip()[1:]
         if append:
             body = body.rstrip()[:-1] + '\n' + append + '\n}'
         for anchor, where, text in opt_inserts:
